@@ -58,12 +58,28 @@ ASSUMPTIONS = [
     "an algorithm instance kept across a registration is within the quantifier (separate mechanism keys *held-instance*)",
 ]
 BUDGET = {"quick": 100, "thorough": 420}
-NCASES = {"quick": 170, "thorough": 5200}
+NCASES = {"quick": 112, "thorough": 3600}
 WORKERS = {"quick": 16, "thorough": 16}
 EVAL_COUNTER = "u_steps_compared"
 FLOORS = {
-    "quick": {"histories": 150, "enumerated_histories": 98, "u_steps_compared": 10000, "u_new_compared": 6000, "u_new_dispatched": 4000, "ref_new_ok": 3000, "random_histories": 50},
-    "thorough": {"histories": 1500, "enumerated_histories": 900, "u_steps_compared": 30000, "u_new_compared": 15000, "u_new_dispatched": 10000, "ref_new_ok": 7000, "random_histories": 500},
+    "quick": {
+        "histories": 85,
+        "enumerated_histories": 49,
+        "random_histories": 30,
+        "u_steps_compared": 9000,
+        "u_new_compared": 5000,
+        "u_new_dispatched": 3500,
+        "ref_new_ok": 3000,
+    },
+    "thorough": {
+        "histories": 1200,
+        "enumerated_histories": 600,
+        "random_histories": 400,
+        "u_steps_compared": 25000,
+        "u_new_compared": 14000,
+        "u_new_dispatched": 9000,
+        "ref_new_ok": 7000,
+    },
 }
 EXHAUSTIVE = False
 
@@ -408,7 +424,7 @@ def setup(ctx):
         raise RuntimeError("driver and check disagree about the late-type kinds")
 
 
-GROUP = 10
+GROUP = 14
 
 
 def enumeration(cat, tier, seed):
